@@ -94,6 +94,15 @@ def run_case(case, obs):
             for i in range(nl):
                 if rng.random() < 0.6:
                     A[i, ~np.array(mask)] = 0.0       # rows that do not touch fixed variables must be retained
+        if mask is not None and int((~np.array(mask)).sum()) >= 2:
+            # rows whose coefficients on the fixed variables are non-zero but cancel in their sum
+            fx = np.flatnonzero(~np.array(mask))
+            for i in range(nl):
+                if rng.random() < 0.5:
+                    cval = float(np.round(rng.uniform(0.5, 2.0), 2))
+                    A[i, fx] = 0.0
+                    A[i, fx[0]], A[i, fx[1]] = cval, -cval
+                    obs.count("linear_rows_with_cancelling_fixed_coefficients")
         A[np.all(A == 0, axis=1), 0] = 1.0
         ll, lu = zip(*[_bound(k, rng) for k in case["kinds"][nn:]])
         spec["linear"] = {"coefficients": A.tolist(), "lower_bounds": list(ll), "upper_bounds": list(lu)}
